@@ -1,7 +1,24 @@
 '''C04 selection: M (MC_C04), R (TLC cases on every layout), V (random frames/keys validated by Trace_Ops).'''
+import datetime
+
+import numpy as np
+
+import static_frame as sf
+
+from .. import project as P, tlaval
 from . import common as C, ops
 
 run_case = ops.run_case
+
+
+def auto_flags(rng, c):
+    '''labels 0..n-1: let the container build its own auto-integer (map-less) index most of the time'''
+    for ax in ('index', 'columns'):
+        labs = c.get(ax)
+        if ax == 'index' and 'cols' in c and not c['cols']:
+            continue        # a Frame without columns cannot take its row count from data
+        if labs is not None and len(labs) and labs == [['i', i] for i in range(len(labs))] and rng.random() < 0.7:
+            c[ax + '_auto'] = True
 
 
 def gen_case(rng):
@@ -9,6 +26,7 @@ def gen_case(rng):
     if r < 0.7:
         f = C.rand_frame(rng, 4, 5, index_kind=rng.choice(['str', 'int', 'auto', 'intshift', 'date']))
         lay = C.rand_layout(rng, f)
+        auto_flags(rng, f)
         r2 = rng.random()
         if r2 < 0.4:
             cs = {'op': 'f_iloc', 'f': f, 'rk': C.rand_iloc_key(rng, len(f['index'])), 'ck': C.rand_iloc_key(rng, len(f['columns']))}
@@ -20,10 +38,120 @@ def gen_case(rng):
             cs = {'op': 'f_bloc', 'f': f, 'mask': [[rng.random() < 0.4 for _ in f['columns']] for _ in f['index']]}
         return cs, lay
     s = C.rand_series(rng, 6, index_kind=rng.choice(['str', 'int', 'auto', 'intshift', 'date']))
+    auto_flags(rng, s)
     op = rng.choice(['s_iloc', 's_loc', 's_getitem'])
     n = len(s['index'])
     cs = {'op': op, 's': s, 'rk': C.rand_iloc_key(rng, n) if op == 's_iloc' else C.rand_loc_key(rng, s['index'])}
     return cs, None
+
+
+# ---- datetime-typed indices: selection by period (SFDate / Trace_C04D) -------------------------------------------------------
+CAL = [(y, m, d) for y in (2019, 2020, 2021) for m in (1, 2, 3, 11, 12) for d in (1, 2, 15, 28)]
+
+
+def d64(lab, unit):
+    y, m, d = lab[1:]
+    return np.datetime64('%04d-%02d-%02d' % (y, m, d), 'D') if unit == 'D' else np.datetime64('%04d-%02d' % (y, m), 'M')
+
+
+def period_key(p, via):
+    '''one period as the user would write it'''
+    if p[0] == 'D':
+        txt = '%04d-%02d-%02d' % tuple(p[1:])
+        if via == 'date':
+            return datetime.date(*p[1:])
+        return txt if via == 'str' else np.datetime64(txt)
+    txt = '%04d-%02d' % tuple(p[1:]) if p[0] == 'M' else '%04d' % p[1]
+    return txt if via in ('str', 'date') else np.datetime64(txt)
+
+
+def rand_period(rng, labels, unit):
+    pool = [l for l in labels] if labels and rng.random() < 0.85 else [['dt'] + list(rng.choice(CAL))]
+    y, m, d = rng.choice(pool)[1:]
+    u = rng.choice(['D', 'D', 'M', 'Y'] if unit == 'D' else ['M', 'M', 'Y'])
+    return ['D', y, m, d] if u == 'D' else ['M', y, m] if u == 'M' else ['Y', y]
+
+
+def date_event(rng):
+    unit = rng.choice(['D', 'D', 'D', 'M'])
+    n = rng.randint(0, 7)
+    cal = CAL if unit == 'D' else sorted({(y, m, 1) for y, m, _ in CAL})
+    labs = [['dt'] + list(t) for t in rng.sample(cal, min(n, len(cal)))]
+    if rng.random() < 0.75:
+        labs.sort()
+    n = len(labs)
+    go = rng.random() < 0.5
+    stale = go and n > 0 and rng.random() < 0.7
+    cls = {('D', False): sf.IndexDate, ('D', True): sf.IndexDateGO, ('M', False): sf.IndexYearMonth, ('M', True): sf.IndexYearMonthGO}[(unit, go)]
+    q = rng.random()
+    via = rng.choice(['str', 'date', 'dt64'])
+    if q < 0.45:
+        key = ['dkey', rand_period(rng, labs, unit)]
+        pykey = period_key(key[1], via)
+    elif q < 0.65:
+        u = rng.choice(['D', 'M', 'Y'] if unit == 'D' else ['M', 'Y'])
+        ps = []
+        for _ in range(rng.randint(0, 3)):
+            p = rand_period(rng, labs, unit)
+            while p[0] != u:
+                p = rand_period(rng, labs, unit)
+            if p not in ps or rng.random() < 0.1:
+                ps.append(p)
+        key = ['dlist', ps]
+        pykey = [period_key(p, via) for p in ps]
+    else:
+        a = ['none'] if rng.random() < 0.25 else rand_period(rng, labs, unit)
+        b = ['none'] if rng.random() < 0.25 else rand_period(rng, labs, unit)
+        key = ['dslice', a, b]
+        pykey = slice(None if a[0] == 'none' else period_key(a, via), None if b[0] == 'none' else period_key(b, via))
+    container = rng.choice(['index', 'series', 'series_getitem', 'frame_rows', 'frame_columns'])
+    vals = [d64(l, unit) for l in labs]
+    try:
+        if stale:
+            ix = cls(vals[:-1])
+            ix.append(vals[-1])       # the caches are now behind the label list until something rebuilds them
+        else:
+            ix = cls(vals)
+        if container == 'index':
+            r = ix.loc_to_iloc(pykey)
+            if isinstance(r, slice):
+                res = {'k': 'positions', 'ps': list(range(*r.indices(n)))}
+            elif isinstance(r, (int, np.integer)):
+                res = {'k': 'elem', 'p': int(r)}
+            elif isinstance(r, np.ndarray) and r.dtype == bool:
+                res = {'k': 'positions', 'ps': [int(i) for i in np.flatnonzero(r)]}
+            else:
+                res = {'k': 'positions', 'ps': [int(i) for i in r]}
+        else:
+            if container in ('series', 'series_getitem'):
+                c = sf.Series(np.arange(n), index=ix)
+                r = c.loc[pykey] if container == 'series' else c[pykey]
+                out = r.values.tolist() if isinstance(r, sf.Series) else None
+                labels_out = list(r.index.values) if isinstance(r, sf.Series) else None
+            elif container == 'frame_rows':
+                c = sf.Frame.from_items((('p', np.arange(n)), ('q', np.arange(n) * 2.0)), index=ix)
+                r = c.loc[pykey]
+                out = r['p'].values.tolist() if isinstance(r, sf.Frame) else None
+                labels_out = list(r.index.values) if isinstance(r, sf.Frame) else None
+                if out is None:
+                    r = r['p']
+            else:
+                c = (sf.FrameGO if go else sf.Frame)(np.arange(n * 2).reshape(2, n), columns=ix)
+                r = c[pykey]
+                out = r.iloc[0].values.tolist() if isinstance(r, sf.Frame) else None
+                labels_out = list(r.columns.values) if isinstance(r, sf.Frame) else None
+                if out is None:
+                    r = r.iloc[0]
+            if out is None:
+                res = {'k': 'elem', 'p': int(r)}
+            else:
+                res = {'k': 'positions', 'ps': [int(x) for x in out]}
+                # every value still paired with its original label
+                if [x for x in labels_out] != [vals[i] for i in res['ps']]:
+                    res = {'k': 'mispaired', 'ps': res['ps'], 'labels': [str(x) for x in labels_out]}
+    except Exception as e:
+        res = {'k': 'err', 'cat': P.err_category(e), 'msg': '%s: %s' % (type(e).__name__, str(e)[:80])}
+    return {'kind': 'date', 'labels': labs, 'unit': unit, 'key': key, 'via': via, 'cls': cls.__name__, 'stale': bool(stale), 'container': container, 'res': res}
 
 
 def main(ctx):
@@ -34,4 +162,14 @@ def main(ctx):
         ops.replay_dump(ctx, r.dump, violation_what='selection differs from the specification')
         ctx.exhaustive = True
     ops.validate_random(ctx, gen_case, 3000 if quick else 60000, what='recorded selection is not a step of the specification')
-    return ctx.finish(rule='R: every (frame, row key, column key) case of MC_C04 on every block layout (quick: 3 sampled layouts per case); V: seeded random frames (<=4x5, 5 dtype kinds, 5 index kinds, random layout) x random iloc/loc/getitem/bloc keys')
+    ctx.model_check('MC_C04D', 'MC_C04D_quick.cfg' if quick else 'MC_C04D_thorough.cfg')
+    ctx.model_check('MC_C04D', 'MC_C04D_neg.cfg', expect_violation='SliceAsBuiltAnyOrder', coverage=False)
+    events = [date_event(ctx.rng) for _ in range(1500 if quick else 40000)]
+    for k, ev in enumerate(events):
+        ev['id'] = k
+    rej = ctx.validate_events('Trace_C04D', 'Trace.cfg', events, chunk=500)
+    for ev in events:
+        if ev['id'] in rej:
+            ctx.violation('V', 'recorded selection on a datetime index violates %s' % rej[ev['id']][0], case={k: ev[k] for k in ev if k not in ('res', 'id')}, actual=ev['res'], clause=rej[ev['id']][0], expected=rej[ev['id']][1])
+    ctx.count('V_date_events', len(events))
+    return ctx.finish(rule='R: every (frame, row key, column key) case of MC_C04 on every block layout (quick: 3 sampled layouts per case); V: seeded random frames (<=4x5, 5 dtype kinds, 5 index kinds, random layout) x random iloc/loc/getitem/bloc keys; datetime indices (IndexDate / IndexYearMonth, static / grow-only / grow-only with a pending append) x scalar / list / slice keys of day, month and year unit given as strings, date objects and datetime64, through the index, Series.loc, Series[], Frame rows and Frame columns (Trace_C04D); MC_C04D: all ascending date indices of <=3 labels x all period keys')
